@@ -18,7 +18,7 @@ class P(Prop):
             "blackbox filled by its supergate is compared with the original by exhaustive simulation; non-trivial = >=3 gates")
     assumptions = ["set-iteration order inside the patched run is the model's ordBy(seed) family (the set of supergate "
                    "objects itself is iterated in id order, which only permutes independent supergates)"]
-    budget = {"quick": (250, 500), "thorough": (1500, 2500)}
+    budget = {"quick": (500, 1000), "thorough": (1500, 2500)}
 
     def gen_case(self, single=False):
         rng = self.rng
